@@ -1,5 +1,5 @@
 INIT TInit
 NEXT TNext
-INVARIANTS WriteAhead HeaderCovers NoOrphanStamp
+INVARIANTS TWriteAhead THeaderCovers TNoOrphanStamp
 POSTCONDITION Accepted
 CHECK_DEADLOCK FALSE
